@@ -30,7 +30,7 @@ Proof. exact sched_is_running. Qed.
 (** ... and the slot is released (the job reported finished) only once all its stage goroutines have returned. *)
 Theorem C01_slot_released_after_runs : ∀ s id s' r,
   step s (EvSchedReturn id) = Some (s', r) →
-  ∃ j sc, get_job s id = Some j ∧ j_sched j = Some sc ∧ sc_entry sc = [] ∧ sc_running sc = [] ∧ sc_phase sc = PExited.
+  ∃ j sc, get_job s id = Some j ∧ j_sched j = Some sc ∧ sc_entry sc = [] ∧ sc_running sc = [] ∧ sc_ending sc = [] ∧ sc_phase sc = PExited.
 Proof. exact sched_return_no_runs. Qed.
 
 (** Non-vacuity: a history in which two jobs run at concurrency 2 and a third is queued *)
